@@ -97,10 +97,9 @@ def _only(cfg_text, clauses):
 def _attack_runs(T):
     """Run every attack / deviation / inert config (in parallel); returns list of (ident, kind, TLCResult)."""
     jobs = []
-    for cfg, desc in ATTACKS:
-        jobs.append((cfg.replace(".cfg", ""), "attack:" + desc, cfg, None))
-    for cfg, desc in DEVIATIONS:
-        jobs.append((cfg.replace(".cfg", ""), "attack:deviation:" + desc, cfg, None))
+    for cfg, desc in ATTACKS + DEVIATIONS:
+        if cfg not in BREAKS or T["per_invariant"]:   # the others run once per clause below
+            jobs.append((cfg.replace(".cfg", ""), "attack:" + desc, cfg, None))
     for cfg, desc in INERT:
         src = open(os.path.join(vlib.SPEC, cfg)).read()
         if T["inert_small"]:
